@@ -32,6 +32,10 @@ def _m():
     return confmodel.load()
 
 
+def json_key(obj):
+    return repr(sorted((repr(k), repr(v)) for k, v in obj.items())) if isinstance(obj, dict) else repr(obj)
+
+
 def tokens(model):
     toks = {"x", "y", "x1", "X"}
     for pm in model.paths.values():
@@ -175,8 +179,19 @@ def evaluate(case) -> Outcome:
                 rels[cname] = str(p)[len(root):]
             else:
                 out.add("C05/path-outside-configured-root", f"{str(p)!r} does not start with {root!r}")
-        if len(set(rels.values())) > 1:
-            out.add("C05/configs-differ-beyond-root", f"{sid!r}: relative paths {rels}")
+        # "differ only by the configured root" is a statement about configurations that share templates and value mapping
+        # (as the shipped ones do); configurations with their own spelling are compared with the reference rendering above only
+        groups = {}
+        for cname, rel in rels.items():
+            pmx = model.paths[cname]
+            layout = (json_key({k: v[len(pmx.root()):] if isinstance(v, str) and v.startswith(pmx.root()) else v for k, v in pmx.templates_raw.items()}),
+                      json_key(pmx.mapping), json_key(pmx.defaults))
+            groups.setdefault(layout, {})[cname] = rel
+        for g in groups.values():
+            if len(set(g.values())) > 1:
+                out.add("C05/configs-differ-beyond-root", f"{sid!r}: relative paths {g}")
+        if len(groups) > 1:
+            out.label("configurations-with-own-layout")
     # untyped
     ok, p = call(lambda: Sid("bla/" + case["items"][0][1][m.keys(case["items"][0][0])[0]]).path())
     if not ok or p is not None:
